@@ -125,6 +125,17 @@ pub fn build_sweep(tier: Tier) -> Vec<IoRun> {
             None,
             &mut runs,
         );
+        // an implementation that tries again: the second and third create fail too
+        for e in [libc::ENOSPC, libc::EACCES, libc::EIO] {
+            push(
+                &w,
+                scratch(),
+                Pre::Longer(17),
+                PlanSpec { open: vec![(0, OpenFault::Hard(e)), (1, OpenFault::Hard(e)), (2, OpenFault::Hard(libc::EIO))], ..Default::default() },
+                None,
+                &mut runs,
+            );
+        }
         // write-time faults at every reached call index, with and without a dribbling device
         let chunkings: Vec<(Option<ChunkSpec>, u32)> = if tier == Tier::Thorough {
             vec![(None, 1), (Some(ChunkSpec::Parts(3)), 3), (Some(ChunkSpec::Parts(7)), 7)]
@@ -151,6 +162,16 @@ pub fn build_sweep(tier: Tier) -> Vec<IoRun> {
                     push(&w, scratch(), Pre::Absent, base(vec![(k, WriteFault::Hard(e))]), None, &mut runs);
                 }
                 push(&w, scratch(), Pre::Absent, base(vec![(k, WriteFault::Zero)]), None, &mut runs);
+                // two and three hard failures in a row (retry logic meets them all)
+                push(&w, scratch(), Pre::Absent, base(vec![(k, WriteFault::Hard(libc::EIO)), (k + 1, WriteFault::Hard(libc::EIO))]), None, &mut runs);
+                push(
+                    &w,
+                    scratch(),
+                    Pre::Longer(17),
+                    base(vec![(k, WriteFault::Hard(libc::EAGAIN)), (k + 1, WriteFault::Hard(libc::ENOSPC)), (k + 2, WriteFault::Hard(libc::ENOSPC))]),
+                    None,
+                    &mut runs,
+                );
                 // torn: part of the buffer accepted, then the device fails (persistently or transiently)
                 for e in WRITE_ERRNOS {
                     push(
